@@ -406,7 +406,48 @@ def degenerate_angle_stream(ctx, n):
                 ctx.disagree("C09:angles:at-vertex", desc, exp, r[1:3], replay=[desc])
 
 
+def single_vs_collection_angle_stream(ctx, n):
+    """angle(single line, LineCollection) in both argument orders where one member of the collection is parallel to the single line
+    (angle 0 there), position-wise the single calls and antisymmetric; 3-D angles of a triangle far from the origin (40000 ... 70000)"""
+    import geometer as g
+    rng = ctx.rng
+    for k in range(n):
+        a, b = float(rng.randint(1, 3)), float(rng.randint(-3, 3))
+        l = g.Line(a, b, float(rng.randint(-4, 4)))
+        members = [g.Line(a * 2, b * 2, float(rng.randint(5, 9))),                       # parallel
+                   g.Line(float(rng.randint(-3, 3)), 1.0, float(rng.randint(-3, 3))), g.Line(1.0, float(rng.randint(-3, 3)) + 0.5, 2.0)]
+        order = [0, 1, 2]
+        rng.shuffle(order)
+        lc = g.LineCollection([members[i] for i in order])
+        desc = f"angle(single line {np.asarray(l.array).tolist()}, collection {[np.asarray(members[i].array).tolist() for i in order]}) — one member parallel"
+        ctx.case(desc)
+        ctx.count("angle:single-vs-collection")
+        singles = [call_impl(lambda m=members[i]: float(np.real(g.angle(l, m)))) for i in order]
+        if any(x[0] != "ok" for x in singles):
+            continue
+        exp = np.array([x[1] for x in singles])
+        r1 = call_impl(lambda: np.real(np.asarray(g.angle(l, lc), dtype=complex)))
+        r2 = call_impl(lambda: np.real(np.asarray(g.angle(lc, l), dtype=complex)))
+        def modpi(u, v):
+            d = np.abs(u - v)
+            return bool(np.all(np.minimum(d, np.abs(d - np.pi)) <= 1e-7))
+        ok = r1[0] == "ok" and r2[0] == "ok" and np.all(np.isfinite(r1[1])) and np.all(np.isfinite(r2[1])) and modpi(r1[1], exp) and modpi(r2[1], -exp)
+        if not ok:
+            ctx.disagree("C09:angle:single-vs-collection", desc, exp.tolist(), (r1[1:3] if r1[0] != "ok" else r1[1].tolist(), r2[1:3] if r2[0] != "ok" else r2[1].tolist()), replay=[desc])
+        # a triangle of space far from the origin
+        off = np.array([40000.0, 70000.0, 20000.0]) * rng.choice([1.0, 0.5, -1.0])
+        A, B, C = (np.array([float(rng.randint(-4, 4)) for _ in range(3)]) for _ in range(3))
+        if np.linalg.norm(np.cross(B - A, C - A)) < 0.5:
+            continue
+        cosv = float(np.dot(B - A, C - A) / (np.linalg.norm(B - A) * np.linalg.norm(C - A)))
+        r3 = call_impl(lambda: float(np.real(g.angle(g.Point(*(A + off)), g.Point(*(B + off)), g.Point(*(C + off))))))
+        ctx.count("angle3d:far")
+        if r3[0] != "ok" or abs(abs(np.cos(r3[1])) - abs(cosv)) > 1e-5:
+            ctx.disagree("C09:angle3d:far-from-origin", f"angle3d {A.tolist()} {B.tolist()} {C.tolist()} translated by {off.tolist()}", np.arccos(cosv), r3[1:3], replay=[desc])
+
+
 def correspondence(ctx):
+    single_vs_collection_angle_stream(ctx, ctx.budget(30, 300))
     degenerate_angle_stream(ctx, ctx.budget(60, 600))
     cross_kind_stream(ctx, ctx.budget(30, 300))
     polygon2d_stream(ctx, ctx.budget(60, 600))
